@@ -16,7 +16,6 @@ using namespace rkcommon;
 using namespace rkcommon::math;
 using c05::Counters;
 using c05::num;
-using c05::viol;
 
 static const double EPS22 = 2.384185791015625e-07;  // 2^-22
 
@@ -133,7 +132,13 @@ static void check_map(const char *tname, const Grid &G, const double *m, const d
           which += ")";
         } else
           which = ncorner == 0 ? "interior grid point" : "grid point on a face or edge";
-        viol(C, fn + "|image of a point of the box lies outside the result|" + which, spec(),
+        int cc = ncorner == 0 ? 0 : 1;
+        if (ncorner == 3) {
+          cc = 4;
+          for (int i = 0, f = 1; i < 3; i++, f *= 3)
+            cc += f * (b.lo[i] == b.hi[i] ? 0 : G.P[p][i] == b.lo[i] ? 1 : 2);
+        }
+        VIOL(C, cc, fn + "|image of a point of the box lies outside the result|" + which, spec(),
             "box [" + v3s(b.lo) + ".." + v3s(b.hi) + "] point " + v3s(G.P[p].data()) + " -> " + v3s(img[p].data()) + " result [" + v3s(rl) + ".." + v3s(ru) + "]");
         break;
       }
